@@ -10,8 +10,11 @@
 **   string  every string of length <= 3 (small) / <= 4 (large) over {a, b, 0x80, 0xFF}
 **   type    every type object exported by Cello.h (+ heap-allocated twins of three names)
 **   raw     a Cello type of 8 raw bytes WITHOUT a Cmp instance (default byte-wise cmp)
+**   raw1 raw3 raw4 raw7 raw9 raw12 raw16 raw20 raw21   the same for structs of those sizes (tails
+**           of 1..7 bytes behind the last whole word; pairs that differ only in the last byte)
 **
 ** Parameters:  dom=all | comma list of int,float,string,type,raw     grid=small|large
+**              (rawall = every raw* domain)
 **              replay="<dom> pair i j" | "<dom> triple i j k" | "<dom> triples i j"
 **                     | "<dom> tree|table <order>"
 **
@@ -24,7 +27,8 @@
 ** Per triple (i,j,k), from the implementation's answers alone:
 **   x=cmp(i,j) <= 0 and y=cmp(j,k) <= 0  =>  cmp(i,k) <= 0, strictly if x or y is strict;
 **   the mirror image for >=.
-** Containers keyed on the grid (int, string, raw: Tree and Table; float: Tree): half of
+** Containers keyed on the grid (int, string, raw*: Tree and Table; float: Tree; raw sizes that are
+** not a multiple of 8: Table only, a Tree node would misalign the value's header): half of
 ** the distinct values are inserted, every grid value is looked up (present ones found
 ** with their value, absent ones KeyError), the rest inserted in four enumerated orders,
 ** Tree iteration must be strictly monotone in the reference order, backward = reverse.
@@ -44,6 +48,7 @@ struct dom {
   int (*stackcmp)(int i, int j);        /* cmp of two stack-allocated twins, or NULL */
   var ktype;                            /* key type for the container part, or NULL */
   int use_table;
+  int no_tree;                          /* key size would misalign a Tree node (see build_domain) */
   signed char* R;                       /* n*n reference matrix */
 };
 
@@ -71,6 +76,7 @@ static int is_nontrivial_pair(int i, int j) {
   const char* f = D.feat(i, j);
   return strcmp(f, "diff-fits-int32") != 0 && strcmp(f, "normal") != 0 && strcmp(f, "ascii") != 0
       && strcmp(f, "different-initial") != 0 && strcmp(f, "first-byte-low") != 0 && strcmp(f, "later-byte-low") != 0;
+  /* (struct pairs that differ only in their LAST byte count whatever the byte values) */
 }
 
 #define CHECK(cond, symptom, ...) do { vf.evaluations++; if (!(cond)) { \
@@ -300,11 +306,14 @@ static void build_domain(const char* name) {
       /* heap-allocated twins carrying the same name */
       if (tobj[i] == Int || tobj[i] == String || tobj[i] == Raw8) D.B[i] = new_raw(Type, $S((char*)tname[i]), $I(8));
     }
-  } else if (!strcmp(name, "raw")) {
-    D.n = rn; D.ref = raw_ref; D.feat = raw_feat; D.desc = raw_desc; D.stackcmp = raw_stackcmp; D.ktype = Raw8; D.use_table = 1;
-    for (int i = 0; i < rn; i++) {
-      D.A[i] = alloc_raw(Raw8); memcpy(D.A[i], rv[i], 8);
-      D.B[i] = alloc_raw(Raw8); memcpy(D.B[i], rv[i], 8);
+  } else if (raw_find(name)) {
+    RW = raw_find(name);
+    /* a Tree puts the value's header right behind the key: only key sizes that are a multiple of 8 keep it aligned */
+    D.n = RW->n; D.ref = raw_ref; D.feat = raw_feat; D.desc = raw_desc; D.stackcmp = raw_stackcmp; D.ktype = RW->type; D.use_table = 1;
+    D.no_tree = RW->size % 8 != 0 && !vf_param_i("oddtree", 0);   /* oddtree=1: do not skip (for a tree that rounds its key size) */
+    for (int i = 0; i < RW->n; i++) {
+      D.A[i] = alloc_raw(RW->type); memcpy(D.A[i], RW->v[i], RW->size);
+      D.B[i] = alloc_raw(RW->type); memcpy(D.B[i], RW->v[i], RW->size);
     }
   } else { fprintf(stderr, "h_cmp: unknown domain %s\n", name); _exit(2); }
   D.R = malloc((size_t)D.n * D.n);
@@ -328,7 +337,7 @@ static void run_domain(const char* name) {
     if (!strcmp(kind, "pair") && got >= 4 && a >= 0 && a < n && b >= 0 && b < n) do_pair(a, b);
     else if (!strcmp(kind, "triple") && got == 5 && a >= 0 && a < n && b >= 0 && b < n && c >= 0 && c < n) do_triples_row(a, b, c);
     else if (!strcmp(kind, "triples") && got >= 4 && a >= 0 && a < n && b >= 0 && b < n) do_triples_row(a, b, -1);
-    else if (!strcmp(kind, "tree") && D.ktype) do_container(0, a);
+    else if (!strcmp(kind, "tree") && D.ktype && !D.no_tree) do_container(0, a);
     else if (!strcmp(kind, "table") && D.ktype && D.use_table) do_container(1, a);
     else vf_note("replay case not understood: %s", vf.replay);
     return;
@@ -351,7 +360,7 @@ static void run_domain(const char* name) {
     do_triples_row(i, j, -1);
   }
   if (D.ktype) for (int order = 0; order < 4; order++) {
-    do_container(0, order);
+    if (!D.no_tree) do_container(0, order);
     if (D.use_table) do_container(1, order);
   }
   vf_extra(name, "{\"values\": %d, \"distinct\": %d, \"pairs\": %d, \"triples\": %" PRIu64 "}", n, ndistinct, n * n, (uint64_t)n * n * n);
@@ -367,12 +376,16 @@ int main(int argc, char** argv) {
     if (sscanf(vf.replay, "%15s", dn) == 1) run_domain(dn);
     vf_finish();
   }
-  static const char* all[] = { "int", "float", "string", "type", "raw" };
+  static const char* all[] = { "int", "float", "string", "type", "raw", "raw1", "raw3", "raw4", "raw7", "raw9", "raw12", "raw16", "raw20", "raw21" };
   for (size_t q = 0; q < sizeof all / sizeof all[0]; q++) {
     if (strcmp(doms, "all") != 0) {
       /* comma separated membership test */
       const char* p = doms; int hit = 0; size_t l = strlen(all[q]);
-      while (*p) { if (strncmp(p, all[q], l) == 0 && (p[l] == ',' || p[l] == 0)) { hit = 1; break; } p = strchr(p, ','); if (!p) break; p++; }
+      while (*p) {
+        if (strncmp(p, all[q], l) == 0 && (p[l] == ',' || p[l] == 0)) { hit = 1; break; }
+        if (strncmp(p, "rawall", 6) == 0 && (p[6] == ',' || p[6] == 0) && strncmp(all[q], "raw", 3) == 0) { hit = 1; break; }
+        p = strchr(p, ','); if (!p) break; p++;
+      }
       if (!hit) continue;
     }
     run_domain(all[q]);
